@@ -170,4 +170,29 @@ Definition s_fill_col (self_ : (matrix A)) (col_ : nat) (elem_ : (T A)) : res (m
   else (for_ 0 (rows self_) (fun i_ (self_ : (matrix A)) =>
            mset self_ i_ col_ elem_) self_).
 
+(* src/matrix/mod.rs : impl < T : Clone + Number > Matrix < T > :: fn new *)
+Definition s_mat_new (rows_ : nat) (cols_ : nat) (elem_ : (T A)) : res (matrix A) :=
+  let size_ := (rows_ * cols_)%nat in
+  let mat_ := (@nil (T A)) in
+  let* mat_ := for_ 0 size_ (fun _i_ (mat_ : (list (T A))) =>
+          let mat_ := (mat_ ++ [elem_]) in
+          Ok mat_) mat_ in
+  Ok (mkM mat_ rows_ cols_).
+
+(* src/matrix/mod.rs : impl < T > Matrix < T > :: fn numel *)
+Definition s_numel (self_ : (matrix A)) : res nat :=
+  Ok ((cols self_) * (rows self_))%nat.
+
+(* src/matrix/operations.rs : impl < T > Index < ( usize , usize ) > for Matrix < T > :: fn index *)
+Definition s_mindex (self_ : (matrix A)) (index_ : (nat * nat)) : res (T A) :=
+  rd (buf self_) (((fst index_) * (cols self_))%nat + (snd index_))%nat.
+
+(* src/matrix/operations.rs : impl < T > Matrix < T > :: fn clear *)
+Definition s_mclear (self_ : (matrix A)) : res (matrix A) :=
+  let n1 := ((@nil (T A))) in
+  let self_ := (mkM n1 (rows self_) (cols self_)) in
+  let self_ := (mkM (buf self_) 0 (cols self_)) in
+  let self_ := (mkM (buf self_) (rows self_) 0) in
+  Ok self_.
+
 End SrcMatrix.
